@@ -2,7 +2,8 @@
 
 Abstract view: ENTRY(k) the k-th os.DirEntry of scandir(target); NAME/ISDIR/ISLINK its name / is_dir() / is_symlink(); each of the
 two calls may raise OSError (the entry is then skipped).  Obligations:
-  * the two fake entries ('.', True, True, False), ('..', True, True, False) are yielded first, whatever happens later;
+  * the two fake entries ('.', True, True, False), ('..', True, True, False) are yielded before any real entry, and exactly when the
+    directory could be opened for listing (a directory that cannot be listed yields nothing: C12 "every result exists");
   * every yielded real entry is (NAME, ISDIR, _is_hidden(NAME), ISLINK if ISDIR else False) and is yielded iff not dir_only or ISDIR
     (the "only if" at the yield, the "if" by the ghost $owed checked at the end of each iteration);
   * what is listed: curdir itself for absolute patterns, else root_dir[/curdir] - through a descriptor opened relative to dir_fd
@@ -78,7 +79,6 @@ class GlobIter(Contract):
             want = z3.If(z3.And(me.abs, cur_truthy), arg == me.curdir.t,
                          (arg == opened.t) if opened is not None else z3.And(me.fd_none, arg == tgt))
             eng.oblige('Glob._iter.lists_curdir_itself_for_absolute_patterns_else_root_dir[/curdir]_(through_the_opened_descriptor_under_dir_fd)', st, want, node)
-            eng.oblige('Glob._iter.fake_entries_._and_.._are_yielded_before_the_directory_is_read', st, z3.BoolVal(st.ghost['$specials_yielded'] == 2), node)
             scan = ObjV(z3.Const(pyvc.fresh('scan'), Obj))
 
             def ok(s2):
@@ -145,6 +145,7 @@ class GlobIter(Contract):
 
         def o2(eng, st, k):
             # the entry is owed to the caller iff it passes the dir_only filter - unless one of its stat calls fails
+            eng.oblige('Glob._iter.fake_entries_._and_.._are_yielded_before_the_first_real_entry', st, z3.BoolVal(st.ghost['$specials_yielded'] == 2), None)
             st.ghost['$owed'] = z3.Or(z3.Not(me.dir_only), ISDIR(ENTRY(k)))
         return {2: o2}
 
@@ -157,11 +158,9 @@ class GlobIter(Contract):
             if v.kind != 'tuple' or len(v.a['items']) != 4:
                 return z3.BoolVal(False)
             name, is_dir, hidden, is_link = v.a['items']
-            if not st.ghost['$scanning']:
+            if st.ghost['$specials_yielded'] < 2:
                 k = st.ghost['$specials_yielded']
-                want = ['.', '..'][k] if k < 2 else None
-                if want is None:
-                    return z3.BoolVal(False)
+                want = ['.', '..'][k]
                 return z3.And(pyvc.eq(name, Str(want)), pyvc.truthy(is_dir), pyvc.truthy(hidden), z3.Not(pyvc.truthy(is_link)))
             e = ENTRY(st.ghost['$k2'])
             raw = U('attr.name', ObjV(e))
@@ -174,7 +173,7 @@ class GlobIter(Contract):
     @property
     def ghost_update(self):
         def on_yield(st, result):
-            if not st.ghost['$scanning']:
+            if st.ghost['$specials_yielded'] < 2:
                 st.ghost['$specials_yielded'] = st.ghost['$specials_yielded'] + 1
             else:
                 st.ghost['$owed'] = z3.BoolVal(False)
@@ -186,7 +185,11 @@ class GlobIter(Contract):
 
         def closed(c):
             return z3.BoolVal((c.st.ghost['$opened'] is None) == (not c.st.ghost['$closed']))
-        return [('Glob._iter.descriptor_opened_iff_closed_on_every_path', ('C12', 'C19'), closed)]
+
+        def fakes(c):
+            return z3.BoolVal(c.st.ghost['$specials_yielded'] == (2 if c.st.ghost['$scanning'] else 0))
+        return [('Glob._iter.descriptor_opened_iff_closed_on_every_path', ('C12', 'C19'), closed),
+                ('Glob._iter.fake_entries_._and_.._are_yielded_iff_the_directory_could_be_opened_for_listing', ('C12', 'C05'), fakes)]
 
     obligation_props = {'Glob._iter.dir_fd_root': ('C12',), 'Glob._iter.lists_curdir': ('C05', 'C12'), 'Glob._iter.fake_entries': ('C05', 'C03'),
                         'Glob._iter.closes': ('C12', 'C19'), 'Glob._iter.yields': ('C05', 'C06', 'C03'), 'Glob._iter.loop': ('C05', 'C06')}
